@@ -33,7 +33,8 @@ if rc != 0:
     sys.exit(2)
 try:
     demo_files = [f for f in os.listdir(d) if f not in ("patch.diff", "meta.json", "README.md", "eval.json") and not f.endswith(".log")]
-    demo_path = meta.get("demo_path", "")
+    demo_path = (meta.get("demo_path", "") or "").split(" (")[0].split()[0] if meta.get("demo_path") else ""
+    demo_files = [f for f in demo_files if f.endswith(".go") or os.path.isdir(os.path.join(d, f))]
     placed = []
     if demo_path:
         src = None
@@ -57,6 +58,8 @@ try:
     demo_cmd = re.sub(r"^cd \S+ && ", "", demo_cmd)
     rc0, out0 = sh(demo_cmd, cwd=wt, timeout=900)
     res["demo_on_unchanged"] = "pass" if rc0 == 0 else "FAIL"
+    if "no tests to run" in out0 or "no test files" in out0:
+        res["demo_on_unchanged"] = "NOT-RUN (no tests matched) " + out0[-200:]
     if rc0 != 0:
         res["demo_unchanged_tail"] = out0[-600:]
     rc, out = sh("git apply %s" % os.path.join(d, "patch.diff"), cwd=wt)
